@@ -114,7 +114,8 @@ Print Assumptions C02_pod_phase_converges_any_environment.
    terminating pods finish, the others become Running and Ready (env_round, RoundCheck.v) — leaves a
    duplicate-free pod list with exactly the members of the abstract round, provided the world is REGULAR: the
    cached set is the spec up to its status, no orphan revision to adopt, every pod already claimed, the update
-   revision in place and newest (gsr_value), the claims of the desired ordinals known to the cache. *)
+   revision in place and newest (gsr_value).  Static premise: the claim names of the desired ordinals are pairwise
+   different (they are <template>-<set>-<ordinal>); claims the cache does not know are created by the round. *)
 Theorem C02_full_model_round :
   forall s upd cnt slots,
     0 <= cnt <= max_i32 + 1 -> s_deleting s = false -> NoDup (s_claims s) ->
@@ -128,7 +129,7 @@ Theorem C02_full_model_round :
     upd = {| ri_name := r_name rupd; ri_tmpl := r_tmpl rupd |} ->
     s_replicas s = Some r -> extend r (get_slots (s_slots s)) = (cnt, slots) ->
     wf s cnt slots (w_pods w) -> NoDup (w_pods w) ->
-    (forall j, in_range cnt slots j = true -> claims_cached s w j) ->
+    NoDup (flat_map (fun j => map (fun t => claim_name t (s_name s) j) (s_claims s)) (ordinals_of cnt slots)) ->
     let w' := env_round hashes w in
     NoDup (w_pods w') /\ same_members (w_pods w') (round s upd cnt slots cur (w_pods w)).
 Proof. exact lift_round. Qed.
@@ -143,6 +144,7 @@ Theorem C02_full_model_converges :
     0 <= cnt <= max_i32 + 1 -> s_deleting s0 = false -> NoDup (s_claims s0) -> s_rolling s0 <> None ->
     get_paused (s_pause s0) = false -> s_selector s0 = SelOk ->
     s_replicas s0 = Some r -> extend r (get_slots (s_slots s0)) = (cnt, slots) ->
+    NoDup (flat_map (fun j => map (fun t => claim_name t (s_name s0) j) (s_claims s0)) (ordinals_of cnt slots)) ->
     forall (Wd : nat -> world) (curs : nat -> rinfo),
     (forall k, Wd (S k) = env_round hashes (Wd k)) ->
     (forall k, regular hashes s0 upd cnt slots (Wd k) (curs k)) ->
@@ -156,19 +158,19 @@ Print Assumptions C02_full_model_converges.
 
 (* (3f) the same with the per-round hypothesis reduced to the REVISION PHASE (rev_quiet: nothing to adopt, the update
    revision in place and newest): that the stored set keeps its spec, that every pod stays claimed, that the
-   claims stay known, that the pods stay well-formed and duplicate-free are preserved by the rounds themselves
+   pods stay well-formed and duplicate-free are preserved by the rounds themselves
    (KeepsSet.v: a reconcile writes the status of the set only; claims are never removed; members of the round). *)
 Theorem C02_full_model_converges_rev_quiet :
   forall hashes s0 upd cnt r slots,
     0 <= cnt <= max_i32 + 1 -> s_deleting s0 = false -> NoDup (s_claims s0) -> s_rolling s0 <> None ->
     get_paused (s_pause s0) = false -> s_selector s0 = SelOk ->
     s_replicas s0 = Some r -> extend r (get_slots (s_slots s0)) = (cnt, slots) ->
+    NoDup (flat_map (fun j => map (fun t => claim_name t (s_name s0) j) (s_claims s0)) (ordinals_of cnt slots)) ->
     forall (Wd : nat -> world) (curs : nat -> rinfo),
     (forall k, Wd (S k) = env_round hashes (Wd k)) ->
     (forall k, rev_quiet hashes upd (Wd k) (curs k)) ->
     (exists st rv, w_set (Wd O) = Some (set_status s0 st rv)) ->
     wf s0 cnt slots (w_pods (Wd O)) -> NoDup (w_pods (Wd O)) -> all_claimed s0 (w_pods (Wd O)) ->
-    (forall j, in_range cnt slots j = true -> claims_cached s0 (Wd O) j) ->
     exists k, Z.of_nat k <= mu s0 upd cnt slots (w_pods (Wd O))
       /\ forall m, (k <= m)%nat ->
            pods_converged s0 upd cnt slots (w_pods (Wd m)) /\ same_members (w_pods (Wd m)) (w_pods (Wd k))
@@ -186,12 +188,13 @@ Theorem C02_full_model_converges_closed :
   forall hashes s0 upd cnt r limit slots,
     0 <= cnt <= max_i32 + 1 -> s_deleting s0 = false -> NoDup (s_claims s0) -> s_rolling s0 <> None ->
     get_paused (s_pause s0) = false -> s_selector s0 = SelOk ->
-    s_replicas s0 = Some r -> extend r (get_slots (s_slots s0)) = (cnt, slots) -> s_rhl s0 = Some limit ->
+    s_replicas s0 = Some r -> extend r (get_slots (s_slots s0)) = (cnt, slots) ->
+    NoDup (flat_map (fun j => map (fun t => claim_name t (s_name s0) j) (s_claims s0)) (ordinals_of cnt slots)) ->
+    s_rhl s0 = Some limit ->
     forall (Wd : nat -> world), (forall k, Wd (S k) = env_round hashes (Wd k)) ->
     forall st0 rv0 rcur0 rupd coll,
     w_set (Wd O) = Some (set_status s0 st0 rv0) ->
     wf s0 cnt slots (w_pods (Wd O)) -> NoDup (w_pods (Wd O)) -> all_claimed s0 (w_pods (Wd O)) ->
-    (forall j, in_range cnt slots j = true -> claims_cached s0 (Wd O) j) ->
     nothing_to_adopt (Wd O) s0 = true ->
     gsr_value hashes (set_status s0 st0 rv0) (sort_revs (lrevs (Wd O) s0)) = Some (rcur0, rupd, coll) ->
     upd = rinfo_of rupd ->
@@ -212,12 +215,13 @@ Theorem C02_full_model_converges_and_goes_quiet :
   forall hashes s0 upd cnt r limit slots,
     0 <= cnt <= max_i32 + 1 -> s_deleting s0 = false -> NoDup (s_claims s0) -> s_rolling s0 <> None ->
     get_paused (s_pause s0) = false -> s_selector s0 = SelOk ->
-    s_replicas s0 = Some r -> extend r (get_slots (s_slots s0)) = (cnt, slots) -> s_rhl s0 = Some limit ->
+    s_replicas s0 = Some r -> extend r (get_slots (s_slots s0)) = (cnt, slots) ->
+    NoDup (flat_map (fun j => map (fun t => claim_name t (s_name s0) j) (s_claims s0)) (ordinals_of cnt slots)) ->
+    s_rhl s0 = Some limit ->
     forall (Wd : nat -> world), (forall k, Wd (S k) = env_round hashes (Wd k)) ->
     forall st0 rv0 rcur0 rupd coll,
     w_set (Wd O) = Some (set_status s0 st0 rv0) ->
     wf s0 cnt slots (w_pods (Wd O)) -> NoDup (w_pods (Wd O)) -> all_claimed s0 (w_pods (Wd O)) ->
-    (forall j, in_range cnt slots j = true -> claims_cached s0 (Wd O) j) ->
     nothing_to_adopt (Wd O) s0 = true ->
     gsr_value hashes (set_status s0 st0 rv0) (sort_revs (lrevs (Wd O) s0)) = Some (rcur0, rupd, coll) ->
     upd = rinfo_of rupd ->
@@ -233,12 +237,13 @@ Theorem C02_full_model_stored_status :
   forall hashes s0 upd cnt r limit slots,
     0 <= cnt <= max_i32 + 1 -> s_deleting s0 = false -> NoDup (s_claims s0) -> s_rolling s0 <> None ->
     get_paused (s_pause s0) = false -> s_selector s0 = SelOk ->
-    s_replicas s0 = Some r -> extend r (get_slots (s_slots s0)) = (cnt, slots) -> s_rhl s0 = Some limit ->
+    s_replicas s0 = Some r -> extend r (get_slots (s_slots s0)) = (cnt, slots) ->
+    NoDup (flat_map (fun j => map (fun t => claim_name t (s_name s0) j) (s_claims s0)) (ordinals_of cnt slots)) ->
+    s_rhl s0 = Some limit ->
     forall (Wd : nat -> world), (forall k, Wd (S k) = env_round hashes (Wd k)) ->
     forall st0 rv0 rcur0 rupd coll,
     w_set (Wd O) = Some (set_status s0 st0 rv0) ->
     wf s0 cnt slots (w_pods (Wd O)) -> NoDup (w_pods (Wd O)) -> all_claimed s0 (w_pods (Wd O)) ->
-    (forall j, in_range cnt slots j = true -> claims_cached s0 (Wd O) j) ->
     nothing_to_adopt (Wd O) s0 = true ->
     gsr_value hashes (set_status s0 st0 rv0) (sort_revs (lrevs (Wd O) s0)) = Some (rcur0, rupd, coll) ->
     upd = rinfo_of rupd ->
@@ -311,8 +316,7 @@ Example C02_ex_quiet :
 Proof. vm_compute. reflexivity. Qed.
 
 (* (4) WHAT IS NOT PROVED.  (3h) is the property over the full reconcile + environment model for a REGULAR initial
-   world (in sync, nothing to adopt, every pod claimed and well-formed, the update revision in place, claims of
-   the desired ordinals known) whose revision list is within revisionHistoryLimit.  Not proved in Coq: the phase
+   world (in sync, nothing to adopt, every pod claimed and well-formed, the update revision in place) whose revision list is within revisionHistoryLimit.  Not proved in Coq: the phase
    BEFORE regularity — the chaotic prefix of a history (faults, lagging caches, adoption of orphans, creation of
    the update revision, pods not yet settled), after which the fair suffix starts from whatever world it left;
    and revision lists longer than the limit (a truncation in mid-rollout changes the list the next revision
